@@ -78,10 +78,11 @@ def with_restores(calls, rng, every_path):
     paths = PATHS if every_path else [rng.choice(PATHS), rng.choice(PATHS)]
     for v in paths:
         ops.append({"op": "restore", "via": v, "lie": False})
-        ops.append({"op": "restore", "via": v, "lie": True})
+        ops.append({"op": "restore", "via": v, "lie": True})               # overstated aggregate figures
+        ops.append({"op": "restore", "via": v, "lie": True, "low": True})  # understated (zero) figures
     # restore points: at the end and at a random earlier point
     k = rng.below(len(out) + 1)
-    return out[:k] + ops[:4] + out[k:] + ops
+    return out[:k] + ops[:6] + out[k:] + ops
 
 
 def check_c10(prop, tier):
@@ -104,7 +105,7 @@ def check_c10(prop, tier):
         hs = [scen.seq_scenario(with_restores(rp["calls"], rng, True)) for rp in replays]
         n = 120 if tier == "quick" else 3000
         for i in range(n):
-            calls = scen.seq_history(rng, rng.range(8, 30), nids=rng.choice([3, 6]), monotone_ts=(i % 2 == 0), zero_ok=(i % 3 != 0))
+            calls = scen.seq_history(rng, rng.range(8, 30), nids=rng.choice([3, 6]), monotone_ts=(i % 2 == 0), zero_ok=(i % 3 != 0), vary_px=(i % 4 == 1))
             hs.append(scen.seq_scenario(with_restores(calls, rng, False)))
         h = run_harness("level", hs, work, "tv", timeout=3000)
         s = tv(h["trace"], "MCTraceSeq", "TraceSeq", work, timeout=6000)
@@ -135,7 +136,7 @@ def check_c11(prop, tier):
         hs = []
         n = 200 if tier == "quick" else 5000
         for i in range(n):
-            build = scen.seq_history(rng, rng.range(4, 18), nids=rng.choice([3, 5]), monotone_ts=(i % 2 == 0), zero_ok=(i % 2 == 1), reads=False)
+            build = scen.seq_history(rng, rng.range(4, 18), nids=rng.choice([3, 5]), monotone_ts=(i % 2 == 0), zero_ok=(i % 2 == 1), reads=False, vary_px=(i % 4 == 0))
             cont = scen.seq_history(rng, rng.range(3, 14), nids=5, monotone_ts=True, zero_ok=False, reads=(i % 3 == 0))
             hs.append(scen.seq_scenario(build + [{"op": "fork", "via": rng.choice(PATHS)}] + cont, budget=6000))
         h = run_harness("level", hs, work, "tv", timeout=3000)
